@@ -18,7 +18,8 @@ META = {
         "skipped); _validate_field validates Field values and recurses into Config values; Field.validate "
         "tests `required` before the None short-circuit; String/List/Dict reject required-but-empty; list "
         "items that are configurations are loaded-with-validation or validated when inserted; validator() "
-        "registers the function for both kinds of target."),
+        "registers the function for both kinds of target, and a second registration on a field keeps the first (the store "
+        "is guarded by 'no validator yet' or stores a function that calls both)."),
     "decided": ["C11.1 load_tree/loads/load end in validation", "C11.2 Schema._validate visits every field and validator, drops no error",
                 "C11.3 _validate_field total over Field / Config values", "C11.4 required before None; required-and-empty rejections",
                 "C11.5 ListProxy._validate validates configuration items", "C11.6 validator() registration for fields and schemas"],
@@ -443,6 +444,72 @@ def check(ctx):
            "validator() no longer registers field validators")
     ctx.ob("register.schema", inn, "schema._validators.append(func)", stores_schema, "schema validators are registered" if stores_schema else
            "validator() no longer registers schema validators")
+    # a second registration keeps the first: a store to <field>.validator either happens only when there is no validator yet, or
+    # stores a function that calls both the new function and the validator read *before* the store (a local copy -- an attribute read
+    # inside the stored function would find the stored function itself)
+    from engine.flow import guard_atoms, none_test
+    g_in = an.cfg(inn)
+    tparam = vd.positional_params[0] if vd.positional_params else None
+
+    def is_prev_read(e, at):
+        """e evaluates to <target>.validator as it was before the store at *at*"""
+        for k, pl in value_sources(inn, e, at):
+            if not (k == "expr" and isinstance(pl, ast.Attribute) and pl.attr == "validator"):
+                return False
+            base = value_sources(inn, pl.value, at)
+            if not base or not all(bk == "param" and bp == tparam for bk, bp in base):
+                return False
+        return True
+
+    for n in [n for n in g_in.nodes if n.kind == "assign"]:
+        stv = n.ast
+        tg = [t for t in getattr(stv, "targets", [getattr(stv, "target", None)]) if isinstance(t, ast.Attribute) and t.attr == "validator"]
+        if not tg or getattr(stv, "value", None) is None:
+            continue
+        no_previous = False
+        for e, truth, t in guard_atoms(an, inn, n):
+            inner_e = none_test(e, True) if truth else none_test(e, False)
+            if inner_e is not None and is_prev_read(inner_e, t):
+                no_previous = True          # `<previous> is None` holds / `<previous> is not None` fails
+            if not truth and isinstance(e, (ast.Name, ast.Attribute)) and is_prev_read(e, t):
+                no_previous = True          # `if previous:` failed / `if not previous:` held
+        okk, why = no_previous, "stored only when the field has no validator yet"
+        if not no_previous:
+            val = stv.value
+            body = None
+            if isinstance(val, ast.Lambda):
+                body, largs = val.body, val.args
+            elif isinstance(val, ast.Name):
+                for nf in inn.nested:
+                    if nf.name == val.id:
+                        body, largs = ast.Module(body=nf.node.body, type_ignores=[]), nf.node.args
+            if body is not None:
+                own = {a.arg for a in largs.posonlyargs + largs.args + largs.kwonlyargs}
+                defaults = dict(zip([a.arg for a in (largs.posonlyargs + largs.args)][::-1], largs.defaults[::-1]))
+                defaults.update({a.arg: d for a, d in zip(largs.kwonlyargs, largs.kw_defaults) if d is not None})
+
+                def outer_value(name_node):
+                    if name_node.id in defaults:
+                        return defaults[name_node.id]
+                    return None if name_node.id in own else name_node
+                calls_new = calls_prev = False
+                for c in ast.walk(body):
+                    if isinstance(c, ast.Call) and isinstance(c.func, ast.Name):
+                        ov = outer_value(c.func)
+                        if ov is None:
+                            continue
+                        srcs = value_sources(inn, ov, n)
+                        if srcs and all(k == "param" and pn == fparam for k, pn in srcs):
+                            calls_new = True
+                        elif isinstance(ov, ast.Name) and is_prev_read(ov, n):
+                            calls_prev = True
+                okk = calls_new and calls_prev
+                why = "the stored function runs the validator registered before and the new one" if okk else \
+                    "a validator registered earlier on the field is replaced: the stored function does not call %s" % (
+                        "the earlier validator" if calls_new else "the new function" if calls_prev else "either of them")
+            else:
+                why = "a validator registered earlier on the field (an earlier decorator, the validator option) is replaced and never run"
+        ctx.ob("register.field-keeps-earlier", inn, "store to .validator", okk, why, node=n)
     fv_use = model.method("Field", "validate")
     from .common import called_attr
     uses = any(isinstance(x, ast.Call) and called_attr(fv_use, x) == "validator" for x in ast.walk(fv_use.node))
